@@ -97,6 +97,14 @@ class MapV:
         self.arr = arr
 
 
+class DictIntV:
+    """dict with integer keys: membership array (Int -> Bool) and value array (Int -> Int)."""
+    __slots__ = ("has", "val")
+
+    def __init__(self, has, val):
+        self.has, self.val = has, val
+
+
 class ObjV:
     """Object as a struct of fields (copied on write)."""
     __slots__ = ("cls", "fields")
@@ -197,6 +205,9 @@ def boolify(v):
         return z3.Or(*[g for g, _ in v.items])
     if isinstance(v, SeqV):
         return v.n > 0
+    if isinstance(v, DictIntV):
+        k = z3.Int("k!de")
+        return z3.Not(z3.ForAll([k], z3.Not(v.has[k])))
     if isinstance(v, (ObjV, ClsV, FuncV, ChoiceV)):
         return z3.BoolVal(True)
     if type(v).__name__ == "CArr":
@@ -278,6 +289,8 @@ def merge_val(c, a, b, name="m"):
         return ListV(out)
     if isinstance(a, MapV) and isinstance(b, MapV):
         return MapV(z3.If(c, a.arr, b.arr))
+    if isinstance(a, DictIntV) and isinstance(b, DictIntV):
+        return DictIntV(z3.If(c, a.has, b.has), z3.If(c, a.val, b.val))
     if isinstance(a, SeqV) and isinstance(b, SeqV):
         return SeqV(z3.If(c, a.arr, b.arr), z3.If(c, a.n, b.n), a.elem)
     if isinstance(a, ClsV) and isinstance(b, ClsV) and a.name == b.name:
@@ -353,6 +366,8 @@ def fresh_like(v, name):
         return ObjV(v.cls, {k: fresh_like(x, f"{name}.{k}") for k, x in v.fields.items()})
     if isinstance(v, MapV):
         return MapV(fresh(name + ".map", v.arr.sort()))
+    if isinstance(v, DictIntV):
+        return DictIntV(fresh(name + ".has", v.has.sort()), fresh(name + ".val", v.val.sort()))
     if isinstance(v, SeqV):
         return SeqV(fresh(name + ".arr", v.arr.sort()), fresh(name + ".n", I), v.elem)
     if isinstance(v, ListV):
